@@ -55,7 +55,7 @@ CHECKS = {
    category="proof",
    text="Coq theorems (Props/C08.v) over a model of the tree array and of the commit operations written in the shape of tree_kem/mod.rs / node.rs on the translated tree math: for EVERY tree and operation sequence leaves stay on even and parents on odd indices, the tree never ends in a blank node, a new leaf takes the leftmost blank slot or extends the tree by one leaf; every commit (proposals, then the optional path) preserves WF3 (an unmerged leaf listed at a parent is a non-blank leaf below it) and WF5 (every non-blank parent has a member in each of its two subtrees), hence a node of a committer's path with an empty copath resolution is blank. Tie: the model's tree after every commit of generated histories (growth, shrink, regrowth, interior blanks, unmerged leaves, filtered path nodes) equals every member's exported tree node by node; the tree hash of every exported tree is recomputed from its bytes inside Coq by an RFC 9420 7.8 implementation over Gallina SHA-256 (independent of tree_hash.rs) and equals the hash in the group context. PARTIAL: parent-hash chain validity and unmerged-leaf consistency are not theorems; every exported tree is instead validated by the library's own observer / joiner validation.",
    design_ref="DESIGN.md section 6 C08",
-   note=COMMON_NOTE + "Hand-modelled: Model/Tree.v, Model/TreeHashRFC.v. Parent-hash validity: validated with the library's validator (not independent), no theorem.",
+   note=COMMON_NOTE + "Hand-modelled: Model/Tree.v, Model/TreeHashRFC.v. Parent-hash validity: no theorem; verified on sampled exported trees by an independent Gallina implementation of RFC 9420 7.9.2 (original sibling tree hash recomputed from scratch) and by the library's validator on every exported tree.",
    technique="Coq proof over tree-operation model + in-Coq RFC tree hash recomputation + node-by-node correspondence"),
  "C02": dict(
    category="proof",
